@@ -157,7 +157,7 @@ Proof.
     destruct (do_seek_rel s2 (p - f_tell U s2) Hi2) as (s3 & -> & Hi3 & Hc3 & Hp3). cbn [bind].
     rewrite (law_tell _ _ _ _ Hlaw _ Hi2) in Hp3.
     exists [], s3. split; [reflexivity|]. rewrite len_nil.
-    repeat split; auto.
+    repeat split; auto; try (now rewrite slice_0).
     + unfold read_count. destruct (n <? 0) eqn:?; lia.
     + congruence.
     + lia.
@@ -182,7 +182,7 @@ Proof.
        else Ok ([], s3)) = Ok (da, s5) /\ inv s5 /\ content s5 = C /\ pos s5 = p + len dr /\
       da = slice C (p + len dr) (len da) /\ (total + len da) mod 16 = 0 /\ 0 <= len da /\ a + total + len da <= L).
     { destruct (total mod 16 =? 0) eqn:Et; cbn [negb].
-      - exists [], s3. rewrite len_nil. repeat split; auto; try lia; unfold total, a in *; lia.
+      - exists [], s3. rewrite len_nil. repeat split; auto; try lia; try (now rewrite slice_0); unfold total, a in *; lia.
       - destruct (law_read _ _ _ _ Hlaw s3 (16 - total mod 16) Hi3) as (da & s4 & -> & Hi4 & Hd4 & Hl4 & Hc4 & Hp4).
         cbn [bind]. rewrite Hc3 in *. fold L in Hl4. rewrite Hp3 in *.
         destruct (do_seek_rel s4 (- len da) Hi4) as (s5 & -> & Hi5 & Hc5 & Hp5). cbn [bind].
